@@ -15,6 +15,7 @@ import (
 	"unsafe"
 
 	"github.com/lidofinance/dc4bc/fsm/fsm_pool"
+	"github.com/lidofinance/dc4bc/fsm/state_machines"
 	dpf "github.com/lidofinance/dc4bc/fsm/state_machines/dkg_proposal_fsm"
 	spf "github.com/lidofinance/dc4bc/fsm/state_machines/signature_proposal_fsm"
 	sif "github.com/lidofinance/dc4bc/fsm/state_machines/signing_proposal_fsm"
@@ -46,6 +47,8 @@ type Out struct {
 	PoolEvents  map[string]string
 	PoolEntry   map[string]string
 	PoolInitial string
+	// FromDumpErr[state]: error text of state_machines.FromDump on a minimal dump in that state ("" = loads)
+	FromDumpErr map[string]string
 }
 
 func unexported(v reflect.Value) reflect.Value {
@@ -108,6 +111,23 @@ func dumpMachine(m interface{}) Machine {
 	return out
 }
 
+func tryFromDump(state string) (res string) {
+	defer func() {
+		if r := recover(); r != nil {
+			res = fmt.Sprintf("panic: %v", r)
+		}
+	}()
+	dump, _ := json.Marshal(map[string]interface{}{"TransactionId": "round", "State": state, "Payload": map[string]interface{}{"DkgId": "round"}})
+	inst, err := state_machines.FromDump(dump)
+	if err != nil {
+		return err.Error()
+	}
+	if st, err := inst.State(); err != nil || string(st) != state {
+		return fmt.Sprintf("restored instance reports state %q, %v", st, err)
+	}
+	return ""
+}
+
 func main() {
 	var o Out
 	for _, m := range []interface{}{spf.New(), dpf.New(), sif.New()} {
@@ -129,6 +149,17 @@ func main() {
 		o.PoolEntry[k.String()] = en.MapIndex(k).String()
 	}
 	o.PoolInitial = unexported(pv.FieldByName("fsmInitialEvent")).String()
+	o.FromDumpErr = map[string]string{}
+	for _, m := range o.Machines {
+		for _, t := range m.Transitions {
+			for _, s := range []string{t.Source, t.Dst} {
+				if _, done := o.FromDumpErr[s]; done {
+					continue
+				}
+				o.FromDumpErr[s] = tryFromDump(s)
+			}
+		}
+	}
 	b, _ := json.MarshalIndent(o, "", " ")
 	fmt.Fprintln(os.Stdout, string(b))
 }
